@@ -38,7 +38,7 @@ def jobs_for(tier):
             for ne in ((False, True) if ('enum' in t['feats'] and tier == 'thorough') else (False,)):
                 W = 256 if tier == 'quick' else 384
                 jobs.append(dict(id='%s/%s%s' % (t['id'], codec, '/numeric' if ne else ''),
-                                 template=t['id'], codec=codec, numeric_enums=ne, tier=tier, W=W))
+                                 template=t['id'], codec=codec, numeric_enums=ne, tier=corpus.job_tier(t, tier), W=W))
     for k in ('per-encoder', 'uper-encoder', 'oer-encoder', 'oer-length'):
         jobs.append(dict(id='kernel/' + k, kernel=k, tier=tier, codec=k.split('-')[0], numeric_enums=False, W=256))
     return jobs
